@@ -79,7 +79,7 @@ func (r *lifeRun) shutdown() {
 
 func (r *lifeRun) active() int64 {
 	n := int64(-999)
-	r.api("reading the connection count", func() { n = r.svc.VerifActiveConnections() })
+	r.api("reading the connection count", func() { n = activeConns(r.svc) })
 	return n
 }
 
